@@ -25,7 +25,8 @@ def run(tier, seed):
         seen.add(key)
         if rec["mode"] == "array":
             for kind in ("sklearn", "torch"):
-                for dtype in (("float64",) if quick else ("float64", "float32", "int64")):
+                others = ("float32", "int64", "int32", "bool", "uint8", "float16", "int8")
+                for dtype in (("float64", others[na % len(others)]) if quick else ("float64",) + others):
                     na += 1
                     for (clause, detail) in WC.array_case(rec, kind, dtype):
                         ctx.violation(clause, "%s shape=%s batch=%s" % (kind, rec["shape"], "dict" if rec["batch"] == 0 else "list"), detail,
